@@ -779,6 +779,8 @@ class TextXVisitor(RRELVisitor):
                     f"at {self.grammar_parser.pos_to_linecol(node.position)}."
                 )
 
+            if name == "ws" and not isinstance(value, str):
+                raise TextXError("param ws requires a string parameter")
             if name == "split" and not isinstance(value, str):
                 raise TextXError("param split requires a string parameter")
             if name == "split" and len(value) == 0:
